@@ -557,7 +557,7 @@ pub fn replay(case: &serde_json::Value) -> Result<(), Violation> {
             let expected = ref_decode_icmp(&stream);
             judge_stream(&seq, &stream, &expected, &cuts)
         }
-        Some("history") => super::c11d::replay(case),
+        Some("history") | Some("icmp-e2e") => super::c11d::replay(case),
         _ => Err(bad()),
     }
 }
